@@ -44,6 +44,18 @@ def impl_file(desc):
     """save, load, oracle.  Returns (write_line, read_line, failure)."""
     import mido
     fail = None
+    if (desc['tpb'] + len(desc['tracks'])) % 5 == 0:
+        # the documented helper functions hand out values that belong to the caller: whatever it does with them must not
+        # change what is written later
+        from mido.midifiles import meta as _meta
+        for n in list(range(0, 130)) + [16383, 16384]:
+            try:
+                r = _meta.encode_variable_int(n)
+                if isinstance(r, list):
+                    r.extend([0x99, 0x98])
+                    r[0] = 0x7f
+            except Exception:
+                pass
     try:
         mid = smf.build_file(desc)
     except Exception as e:
